@@ -150,7 +150,7 @@ class Ctx:
 
 class FnTr:
     def __init__(self, ctx, node, pname, lean_name, param_types, recursive, cache_step=False, self_fields=None,
-                 src="", gen=None):
+                 src="", gen=None, method_fields=None):
         self.ctx = ctx
         self.node = node
         self.pname = pname
@@ -166,6 +166,7 @@ class FnTr:
         self.vtypes = dict(self.ptypes)
         for f, t in self.self_fields.items():
             self.vtypes["self." + f] = t
+        self.method_fields = method_fields or []   # a method that changes object fields returns their new values
         self.gen = gen or {}    # generator translation: {"online": bool, "passes": bool}
         self.local_fns = {}
         if self.gen:
@@ -222,6 +223,15 @@ class FnTr:
             for t in rets:
                 r = ty_join(r, t)
             self.ret = r
+        self.ret_wrap = False
+        body = [b for b in self.node.body if not (isinstance(b, ast.Expr) and isinstance(b.value, ast.Constant))]
+        if self.ret is not None and not self.is_opt(self.ret) and body and not self.always_exits(body[-1]) \
+                and not self.gen and not self.method_fields:
+            # control can fall off the end (implicit `return None`) although other paths return a value
+            self.ret = ("opt", self.ret)
+            self.ret_wrap = True
+        if self.method_fields:
+            self.ret = None
         if self.ret is None:
             self.ret = "Unit"
 
@@ -423,6 +433,17 @@ class FnTr:
                     raise Unsupported("call of %s with defaulted arguments" % f)
                 return "(← %s %s%s)" % (lean, "fuel " if fuel else "", " ".join(args))
             raise Unsupported("call of %s" % f)
+        if isinstance(e, ast.BoolOp) and any(self.effectful(v) for v in e.values[1:]):
+            # Python's left-to-right evaluation with early stop, as nested `do` blocks (nothing is hoisted out)
+            isor = isinstance(e.op, ast.Or)
+            first = e.values[0]
+            restv = e.values[1:]
+            rest_e = restv[0] if len(restv) == 1 else ast.BoolOp(op=e.op, values=restv)
+            a = self.expr(first) if isinstance(first, (ast.BoolOp, ast.Compare)) else "(decide %s)" % self.cond_pure(first)
+            b = self.expr(rest_e) if isinstance(rest_e, (ast.BoolOp, ast.Compare)) else "(decide %s)" % self.cond_pure(rest_e)
+            if isor:
+                return "(← (do if (%s = true) then pure true else do pure %s))" % (a, b)
+            return "(← (do if (%s = true) then do pure %s else pure false))" % (a, b)
         if isinstance(e, (ast.Compare, ast.BoolOp)):
             return "(decide %s)" % self.cond_pure(e)
         raise Unsupported("expression %s" % type(e).__name__)
@@ -798,7 +819,12 @@ class FnTr:
                 out.extend(self.if_stmt(st, ind, defined, in_loop))
                 continue
             if isinstance(st, ast.Return) and getattr(st, "_synthetic", False):
-                out.append("%sreturn out_" % ind)
+                if self.gen:
+                    out.append("%sreturn out_" % ind)
+                elif self.method_fields:
+                    out.append("%sreturn (%s)" % (ind, ", ".join("self_" + f for f in self.method_fields)))
+                else:
+                    out.append("%sreturn none" % ind)
                 if tail is not None:
                     return out
                 continue
@@ -807,6 +833,8 @@ class FnTr:
                     raise Unsupported("return inside a loop / generator (line %d)" % st.lineno)
                 if st.value is None:
                     out.append("%sreturn ()" % ind)
+                elif self.ret_wrap and not self.is_opt(self.etype(st.value)):
+                    out.append("%sreturn (some %s)" % (ind, self.expr(st.value)))
                 elif self.is_opt(self.etype(st.value)) and not self.is_opt(self.ret):
                     out.append("%sreturn %s" % (ind, self.expr(st.value, "num")))
                 else:
@@ -886,6 +914,15 @@ class FnTr:
             if not st.orelse:
                 return True
             return self.exits(st.orelse[-1])
+        return False
+
+    def always_exits(self, st):
+        """every path through the statement ends in `return` / `raise` (an `if` needs a final `else`)"""
+        if isinstance(st, (ast.Return, ast.Raise)):
+            return True
+        if isinstance(st, ast.If):
+            return bool(st.body) and bool(st.orelse) and self.always_exits(st.body[-1]) and \
+                self.always_exits(st.orelse[-1])
         return False
 
     def open_else(self, st):
@@ -1066,6 +1103,11 @@ class FnTr:
             pre.append("%slet s : Int := min s (n - 1)" % ind)
         for k in reassigned:
             pre.append("%slet mut %s := %s" % (ind, self.vn(k), self.vn(k)))
+        if self.ret_wrap or self.method_fields:
+            fin = ast.Return(value=ast.Constant(value=None))
+            fin._synthetic = True
+            fin.lineno = self.node.end_lineno
+            body_stmts = list(body_stmts) + [fin]
         if self.gen:
             fin = ast.Return(value=ast.Name(id="out_", ctx=ast.Load()))
             fin._synthetic = True
@@ -1077,6 +1119,9 @@ class FnTr:
     def emit(self):
         if self.gen:
             self.ret = ("list", "PyEv")
+        if self.method_fields:
+            self.ret = ("tuple", [self.vtypes.get("self." + f) for f in self.method_fields]) \
+                if len(self.method_fields) > 1 else self.vtypes.get("self." + self.method_fields[0])
         body = self.translate()
         params = "".join(" (%s : %s)" % (self.vn(p), ty_str(self.ptypes[p])) for p in self.params)
         for f, t in self.self_fields.items():
@@ -1203,6 +1248,27 @@ FUNCTIONS = [
 
 ENUMS = [("schedule.py", "StepType"), ("schedule.py", "StorageType")]
 
+ST = ("enum", "StorageType")
+# (file, qualified name, lean name, parameter types, self fields, fields whose new values the method returns)
+METHODS = [
+    ("schedule.py", "CheckpointSchedule.__init__", "checkpointSchedule_init", {"max_n": ("opt", "Int")}, {},
+     ["n", "r", "max_n"]),
+    ("schedule.py", "CheckpointSchedule.finalize", "finalize", {}, {"n": "Int", "max_n": ("opt", "Int")},
+     ["n", "max_n"]),
+    ("basic_schedules.py", "SingleMemoryStorageSchedule.uses_storage_type", "singleMemory_uses", {"storage_type": ST},
+     {"storage": ST}, []),
+    ("basic_schedules.py", "SingleDiskStorageSchedule.uses_storage_type", "singleDisk_uses", {"storage_type": ST},
+     {"storage": ST}, []),
+    ("basic_schedules.py", "NoneCheckpointSchedule.uses_storage_type", "none_uses", {"storage_type": ST}, {}, []),
+    ("multistage.py", "MultistageCheckpointSchedule.uses_storage_type", "multistage_uses", {"storage_type": ST},
+     {"snapshots_in_ram": "Int", "snapshots_on_disk": "Int"}, []),
+    ("mixed.py", "MixedCheckpointSchedule.uses_storage_type", "mixed_uses", {"storage_type": ST}, {"storage": ST}, []),
+    ("twolevel_binomial.py", "TwoLevelCheckpointSchedule.uses_storage_type", "twoLevel_uses", {"storage_type": ST},
+     {"binomial_storage": ST}, []),
+    ("hrevolve.py", "RevolveCheckpointSchedule.uses_storage_type", "revolve_uses", {"storage_type": ST},
+     {"snapshots_in_ram": "Int", "snapshots_on_disk": ("opt", "Int")}, []),
+]
+
 F_BASE = {"n": "Int", "r": "Int", "max_n": ("opt", "Int")}
 # (file, qualified name, lean name, self fields, generator options)
 GENERATORS = [
@@ -1305,6 +1371,21 @@ def generate(repo):
             status[lean] = "untranslatable: %s: %s" % (type(e).__name__, e)
     if "StorageType" in enums:
         chunks.insert(len(enums), ACTION_TEXT)
+        for f, qual, lean, ptypes, fields, mfields in METHODS:
+            try:
+                node = find_def(tree(f), qual)
+                if node.decorator_list:
+                    raise Unsupported("decorated method")
+                for a2, d2 in zip(node.args.args[::-1], node.args.defaults[::-1]):
+                    if not (isinstance(d2, ast.Constant) and d2.value is None):
+                        raise Unsupported("default argument")
+                tr = FnTr(ctx, node, qual, lean, ptypes, False, self_fields=fields, method_fields=mfields,
+                          src="%s:%d-%d" % (f, node.lineno, node.end_lineno))
+                text, fuel = tr.emit()
+                chunks.append(text)
+                status[lean] = "ok"
+            except (Unsupported, SyntaxError, OSError, KeyError, IndexError, TypeError, AttributeError) as e:
+                status[lean] = "untranslatable: %s: %s" % (type(e).__name__, e)
         for f, qual, lean, fields, gopts in GENERATORS:
             try:
                 node = find_def(tree(f), qual)
